@@ -649,6 +649,14 @@ def numpy_call(it, fn, d, e, env, argv, kw, args):
     if fn in ("expand_dims", "broadcast_to", "reshape", "squeeze"):
         return a0.copy(sh=None, cval=None) if a0 is not None and a0.is_numlike else unk()
     if fn == "isclose" or fn == "allclose" or fn == "array_equal":
+        if fn != "array_equal" and len(argv) >= 2:
+            atol = kw.get("atol", argv[3] if len(argv) > 3 else None)
+            default_atol = atol is None  # numpy's default is the absolute 1e-8
+            literal_atol = atol is not None and atol.is_numlike and atol.wild and atol.cval not in (None, 0, 0.0)
+            for d_ in argv[:2]:
+                if d_.is_numlike and not d_.wild and not d_.is_unk and d_.k == "num" and d_.u != ZERO and (default_atol or literal_atol):
+                    it.violation("DIM.ABS", e, f"`{src(e)[:60]}` tests a quantity of dimension {fmt(d_.copy(sh=None, s=0))} with an absolute tolerance ({'numpy default 1e-8' if default_atol else 'literal'}): the outcome changes when the features are expressed in another unit")
+                    break
         return V("bool")
     if fn in ("finfo",):
         return V("func", note="finfo")
